@@ -209,8 +209,10 @@ static std::string do_step(const std::vector<std::string>& w) {
     if (a >= H.size()) return "dead";
     JitAllocatorBlock* blk = block_by_ord(H[a].blk);
     if (!H[a].span.rx() || !blk) return "gone";          // block was deleted: the address may belong to anybody now
+    // offsets up to 2^64 - 1 are part of the protocol: decide "outside the block" on integers, never form a wrapped pointer
+    size_t span_off = size_t((uint8_t*)H[a].span.rx() - blk->rx_ptr());
+    if (b >= blk->block_size() || span_off + b >= blk->block_size()) return "oob";
     uint8_t* p = (uint8_t*)H[a].span.rx() + b;
-    if (p >= blk->rx_ptr() + blk->block_size()) return "oob";
     JitAllocator::Span s;
     Error e = A->query(Out(s), p);
     if (e != Error::kOk) return std::string("err ") + err_name(e);
